@@ -4,6 +4,7 @@ Each check = (1) binding self-test, (2) TLC model-checks the implementation-shap
 against the contract monitor and structural invariants, (3) TLC-generated environment schedules of
 SocketImpl replayed into the real AirTouchSocket, (4) seeded generators aimed at the property; every
 recorded execution is validated by TLC against SocketContract (Trace_Socket)."""
+import os
 import random
 
 from . import gen_socket as G
@@ -16,6 +17,8 @@ L2_INV_PROPS = {"AtMostOne": "C07", "AbandonedClosed": "C07", "NoWedge": "C07", 
 
 
 def l2_exhaustive(rep, name, over, kinds, pols, timeout=1500):
+    if os.environ.get("VERIF_SKIP_EXHAUSTIVE"):     # exploratory seed sweeps only: the exhaustive runs do not depend on the seed
+        return None
     res = L2.model_check(over, kinds, pols, timeout=timeout)
     rep.add_tlc({"states": res["states"], "transitions": res["transitions"]})
     rep.part("SocketImpl model check: " + name, constants=over, kinds=kinds, policies=pols, states=res["states"],
@@ -181,6 +184,8 @@ def check_c13(rep):
 def l2_sensitivity(rep, flag, over, kinds, pols, expect, timeout=1500):
     """Vacuity guard: with the modelled repair (or re-read of the clock) switched off, the model must
     break the named clause / invariant; otherwise the exhaustive runs would not be exercising it."""
+    if os.environ.get("VERIF_SKIP_EXHAUSTIVE"):     # exploratory seed sweeps only: the exhaustive runs do not depend on the seed
+        return None
     o = dict(over)
     o[flag] = "FALSE"
     res = L2.model_check(o, kinds, pols, timeout=timeout)
